@@ -1,9 +1,11 @@
 #!/bin/bash
-# runs every seeded change against the check of its property (and related checks)
+# runs every seeded change against the quick check of its property, then the
+# cross-property pairs (a change seeded for one property that another check
+# is expected to catch as well)
 for d in /verif/seeded/C*-m*; do
   n=$(basename $d); id=${n%%-*}
-  case $id in
-    C03|C16|C19) continue;;
-  esac
   /verif/tools/run_mutant.sh $n $id
+done
+for pair in "C02-m1 C07" "C02-m2 C08" "C05-m2 C06" "C07-m3 C10" "C04-m1 C10"; do
+  /verif/tools/run_mutant.sh $pair
 done
